@@ -57,6 +57,12 @@ MUTANTS = {
         ('id_reused', r'self\.next_reliable_message_id \+= 1;', 'self.next_reliable_message_id += 0;'),
         ('slice_threshold', r'if message\.len\(\) > SLICE_SIZE \{', 'if message.len() >= SLICE_SIZE {'),
     ],
+    'U14': [
+        ('unordered_built_ordered', r'ReceiveChannelReliable::new\(channel_config\.max_memory_usage_bytes, false\)', 'ReceiveChannelReliable::new(channel_config.max_memory_usage_bytes, true)'),
+        ('lists_swapped', r'config\.client_channels_config,(\s+)config\.server_channels_config,', r'config.server_channels_config,\1config.client_channels_config,'),
+        ('budget_ignored', r'ReceiveChannelUnreliable::new\(channel_config\.channel_id, channel_config\.max_memory_usage_bytes\)', 'ReceiveChannelUnreliable::new(channel_config.channel_id, 0)'),
+        ('send_order_wrong_kind', r'channel_send_order\.push\(ChannelOrder::Reliable\(channel_config\.channel_id\)\);', 'channel_send_order.push(ChannelOrder::Unreliable(channel_config.channel_id));'),
+    ],
     'U7': [
         ('budget_not_charged', r'\*available_bytes -= message\.len\(\) as u64;', ''),
         ('pack_threshold', r'if small_messages_bytes \+ serialized_size > SLICE_SIZE \{', 'if small_messages_bytes > SLICE_SIZE {'),
